@@ -145,6 +145,16 @@ def eval_cross(i, scn):
         c2 = dict(c, fam="CPCCA", alpha=pred["alpha"])
         m2 = CW.fit(c2, cw)
         cross_equal(ck, "C10_NamedIsSpecialCase", m, m2, pred, f"{c['fam']} vs CPCCA(alpha={[CW.ALPHA[a] for a in pred['alpha']]})")
+        # ... for every setting of the remaining free parameters: the preprocessing flags are passed through alike
+        flags = [dict(standardize=True), dict(standardize=[True, False]), dict(standardize=[False, True])][i % 3]
+        try:
+            m4, m5 = CW.fit(c, cw, **flags), CW.fit(c2, cw, **flags)
+            cross_equal(ck, "C10_NamedIsSpecialCase", m4, m5, pred, f"{c['fam']} vs CPCCA(alpha={[CW.ALPHA[a] for a in pred['alpha']]}) with {flags}")
+            for nm in ("squared_covariance_fraction",):
+                a_, b_ = np.asarray(getattr(m4, nm)().values), np.asarray(getattr(m5, nm)().values)
+                ck.m(np.allclose(a_, b_, rtol=1e-8, atol=1e-10, equal_nan=True), "C10", "C10_NamedIsSpecialCase", f"{c['fam']} vs CPCCA with {flags}: {nm} {a_.tolist()} vs {b_.tolist()}")
+        except Exception as e:  # noqa
+            ck.d(False, "C10", "C10_NamedIsSpecialCase", f"{c['fam']} / CPCCA with {flags} raised {type(e).__name__}: {str(e)[:120]}")
     # PCA keeping all modes equals no pre-reduction
     other = dict(c, pca="none" if c["pca"] == "all" else "all")
     m3 = CW.fit(other, cw)
